@@ -75,7 +75,30 @@ class SchemaDeriver:
         except Exception as ex:
             raise Unsupported(f"non-literal {u(e)}") from ex
 
+    canon = None        # hv.canon.Canon, set by the checker: class-body expressions are read in canonical form
+
+    def expand(self, mod: Module, e: ast.expr | None):
+        """`v: T = _tag_field("X")` / `model_config = _union_config("v")`: a call of a module-level helper function in a class body
+        stands for the expression the helper returns (seen through like any helper)"""
+        if self.canon is None or not isinstance(e, ast.Call) or not isinstance(e.func, ast.Name):
+            return e
+        name = e.func.id
+        target = None
+        if name in mod.functions:
+            target = mod.functions[name]
+        elif name in mod.imports:
+            mq, _, member = mod.imports[name].rpartition(".")
+            if mq in self.prog.modules:
+                target = self.prog.modules[mq].functions.get(member)
+        if target is None:
+            return e
+        try:
+            return self.canon.module_expr(mod, e, inline={name})
+        except Exception as ex:
+            raise Unsupported(f"helper call {u(e)} in a class body is not an expression: {ex}") from ex
+
     def field_info(self, mod: Module, e: ast.expr | None):
+        e = self.expand(mod, e)
         if e is None:
             return None
         if isinstance(e, ast.Name):
@@ -259,7 +282,7 @@ class SchemaDeriver:
         """(title, json_schema_extra) from the class's own `model_config = ConfigDict(...)`"""
         title, extra = None, {}
         for k in c.mro:
-            v = k.class_assigns.get("model_config")
+            v = self.expand(k.module, k.class_assigns.get("model_config"))
             if isinstance(v, ast.Call):
                 for kw in v.keywords:
                     if kw.arg == "title" and title is None:
